@@ -19,6 +19,10 @@ lock acquisitions of the read path: the reader as it is reads the segment in eve
 rotation of that segment (it falls back to the rotated metadata when the key has left the unrotated map between
 a check and its look-up); the composition of the two machines is not proved.
 
+Section 5 (namespace `Create`, at the end of the file) is about a different machine, `SigModel/Model/ConcCreate.lean`:
+the get-or-create of a stream's SegStore in the table `allSegStores` by any number of concurrent ingest calls, with
+flushes and removeStaleSegments — no acknowledged event may end up in a store that is not in the table.
+
 Block `(g, k)` "has been flushed" in state `s` iff `k < s.total g`; `(s.query j).pre` is `total` at the
 moment query `j` took its first step (theorem `pre_is_flushed_at_first_step`).
 -/
